@@ -111,7 +111,11 @@ func mScan(s *bufio.Scanner) bool {
 		}
 		stdoutNext++
 		consumed++
-		g.text = "later"
+		if n == 0 {
+			g.text = "" // an empty line
+		} else {
+			g.text = "later"
+		}
 		return true
 	}
 	<-g.p.dead
